@@ -293,7 +293,7 @@ theorem swo_tierLess : SWO tierLess := by
     rename_i x y
     by_cases hxy : x = y
     · subst hxy; simp
-    · simp [hxy]; omega
+    · simp [hxy]
 
 def polRank (p : PolKV) : Nat × Int := (if p.val.order.isSome then 0 else 1, p.val.order.getD 0)
 
@@ -307,6 +307,6 @@ theorem swo_polKVLess : SWO polKVLess := by
   rename_i x y
   by_cases hxy : x = y
   · subst hxy; simp
-  · simp [hxy]; omega
+  · simp [hxy]
 
 end CalicoVerif.C03
